@@ -168,7 +168,7 @@ def _parse_disabled(name):
     return "address" in vars(NETS[name].parse)
 
 
-def oracle(op: str, out: str):
+def _oracle(op: str, out: str):
     a = op.split(" ")
     k = a[0]
     if k in ("c08kind", "c08addr") and _parse_disabled(a[1]):
@@ -260,7 +260,7 @@ def pushes(data: bytes):
     return out
 
 
-def gen(ctx, emit):
+def _gen(ctx, emit):
     rng = ctx.rng
 
     def rb(n):
@@ -268,7 +268,7 @@ def gen(ctx, emit):
 
     def hashes(n):
         base = [b"\0" * n, b"\xff" * n, bytes(range(n)), bytes([0x12] * n), bytes([0x99] * n)]
-        return base + [rb(n) for _ in range(ctx.n(2, 12))]
+        return base + [rb(n) for _ in range(ctx.n(2, 40))]
 
     b58nets = [n for n in NAMES if n not in GRS]
     made = []  # (net, text) of every address produced, for the cross-network stream
@@ -276,7 +276,7 @@ def gen(ctx, emit):
     for name in NAMES:
         net = NETS[name]
         for kind in STD:
-            for h in hashes(32 if kind in ("p2sh_wit", "p2tr") else 20)[: ctx.n(4, 17)]:
+            for h in hashes(32 if kind in ("p2sh_wit", "p2tr") else 20)[: ctx.n(4, 45)]:
                 emit("c08kind %s %s %s" % (name, kind, hx(h)))
                 script = _std_script(net, kind, h)
                 emit("c08addr %s %s" % (name, hx(script)))
@@ -298,7 +298,7 @@ def gen(ctx, emit):
         if not texts:
             continue
         for b in NAMES:
-            for text in rng.sample(texts, min(len(texts), ctx.n(2, 8))):
+            for text in rng.sample(texts, min(len(texts), ctx.n(2, 12))):
                 emit("c08parse %s %s" % (b, th(text)))
     # 3. payload lengths 0..40 for every Base58 prefix of every network (address, p2sh, wif, bip32…: any kind's
     #    prefix must not make an address out of a payload of the wrong length)
@@ -376,7 +376,7 @@ def gen(ctx, emit):
     scripts.append(msig(0x51, [rb(76)], 0x51))
     scripts.append(msig(0x51, [rb(120)], 0x51))
     scripts.append(msig(0x51, [rb(121)], 0x51))
-    for _ in range(ctx.n(300, 6000)):
+    for _ in range(ctx.n(300, 40000)):
         ln = rng.choice([1, 2, 3, 5, 22, 23, 25, 34, 35, 40, 70])
         s = bytearray(rb(ln))
         if rng.random() < 0.5:
@@ -387,7 +387,7 @@ def gen(ctx, emit):
             wrap("p2tr", pushes(rb(32))[0]), wrap("p2pk", pushes(b"\x03" + rb(32))[0]), msig(0x52, [b"\x02" + rb(32)] * 3, 0x53)]
     for s in base:
         scripts.append(s)
-        for _ in range(ctx.n(12, 200)):
+        for _ in range(ctx.n(12, 1500)):
             t = bytearray(s)
             i = rng.randrange(len(t))
             w = rng.randrange(3)
@@ -421,3 +421,25 @@ def gen(ctx, emit):
             if len(sec) == 33:
                 emit("c08keyaddr %s bip49 %s" % (name, hx(sec)))
                 emit("c08keyaddr %s bip84 %s" % (name, hx(sec)))
+
+
+def oracle(op: str, out: str):
+    """the property evaluated on the implementation; on the unchanged tree no step of it raises"""
+    try:
+        return _oracle(op, out)
+    except ImportError:
+        return None   # Groestl hash library absent
+    except Exception as e:  # noqa: BLE001
+        return "evaluating the property on the implementation raised %s" % type(e).__name__
+
+
+def gen(ctx, emit):
+    import traceback
+    try:
+        _gen(ctx, emit)
+    except Exception as e:  # noqa: BLE001
+        tb = traceback.extract_tb(e.__traceback__)
+        where = next((fr for fr in reversed(tb) if "/pycoin/" in fr.filename), tb[-1])
+        ctx.violation("building the inputs through the public API raised %s" % type(e).__name__,
+                      "<generator> %s:%d %s" % (where.filename.split("/pycoin/")[-1], where.lineno, where.name),
+                      expected="the API calls the generators use succeed", observed=repr(e)[:200], kind="oracle")
